@@ -301,6 +301,7 @@ func c02(r *core.Report) {
 	c02Backtrack(r)
 	resetScope(r, "C02.resetscope")
 	c02Text(r)
+	c02Untyped(r)
 }
 
 // c02Term: resolution terminates – every recursive descent in the resolve family is on the finite
@@ -1214,6 +1215,81 @@ func c02Text(r *core.Report) {
 		}
 		if n == 0 {
 			core.Fail("no caching ReadFromURIFunc wrapper found in openapi3")
+		}
+	})
+}
+
+// c02Untyped: a reference whose pointer stops at an object of the wrong kind fails the load. The
+// only data that may be decoded a second time into the kind the reference expects is data the
+// model did not type: a map[string]any (an extension, or the raw re-read). A typed container of
+// the model (the map of all schemas, a Content map) re-decoded that way becomes an empty object of
+// the expected kind instead of an error.
+func c02Untyped(r *core.Report) {
+	p := r.Prog
+	info := p.Pkg("openapi3").TypesInfo
+	r.RunRule("C02.untyped", "only untyped data is re-decoded into the expected kind: in resolveComponent the case that converts the object found through JSON (Marshal, then Unmarshal into the expected type) is selected by `reflect.TypeOf(cursor) == reflect.TypeOf(map[string]any{})` — exact type identity with the untyped map, not a test of the reflect.Kind", 1, func() {
+		fd := p.DeclOf("openapi3", "Loader.resolveComponent")
+		ff := core.NewFuncFacts(p, info, fd)
+		n := 0
+		ast.Inspect(fd.Body, func(nd ast.Node) bool {
+			cc, ok := nd.(*ast.CaseClause)
+			if !ok || len(cc.List) != 1 {
+				return true
+			}
+			recodes := false
+			for _, st := range cc.Body {
+				ast.Inspect(st, func(m ast.Node) bool {
+					if c, ok := m.(*ast.CallExpr); ok {
+						if f := core.CalleeOf(info, c); f != nil && f.FullName() == "encoding/json.Marshal" {
+							recodes = true
+						}
+					}
+					return true
+				})
+			}
+			if !recodes {
+				return true
+			}
+			n++
+			key := fmt.Sprintf("untyped:recode#%d", n)
+			good := false
+			if be, ok := ast.Unparen(cc.List[0]).(*ast.BinaryExpr); ok && be.Op == token.EQL {
+				isTypeOfUntyped := func(e ast.Expr) bool {
+					e = ast.Unparen(e)
+					if id, ok := e.(*ast.Ident); ok {
+						if as := ff.Assigns(info.ObjectOf(id)); len(as) == 1 && as[0].Rhs != nil {
+							e = ast.Unparen(as[0].Rhs)
+						}
+					}
+					c, ok := e.(*ast.CallExpr)
+					if !ok || len(c.Args) != 1 {
+						return false
+					}
+					if f := core.CalleeOf(info, c); f == nil || f.FullName() != "reflect.TypeOf" {
+						return false
+					}
+					cl, ok := ast.Unparen(c.Args[0]).(*ast.CompositeLit)
+					if !ok {
+						return false
+					}
+					mt, ok := info.TypeOf(cl).(*types.Map)
+					if !ok {
+						return false
+					}
+					_, isIface := mt.Elem().Underlying().(*types.Interface)
+					return isIface && mt.Key().String() == "string"
+				}
+				good = isTypeOfUntyped(be.X) || isTypeOfUntyped(be.Y)
+			}
+			if good {
+				r.OK(key, p.Pos(cc.Pos()), "re-decoding is selected by identity with map[string]any")
+			} else {
+				r.Bad(key, p.Pos(cc.Pos()), fmt.Sprintf("the re-decoding case is selected by `%s`: typed containers of the model (the map of all schemas, a Content map, a Paths object's map) pass it too, are marshalled and unmarshalled into the expected kind, and a reference such as `#/components/schemas` or one that stops at a map of another kind resolves to an empty object instead of failing with `bad data`", core.ExprStr(cc.List[0])))
+			}
+			return true
+		})
+		if n == 0 {
+			core.Fail("resolveComponent has no case that re-decodes the object found through encoding/json")
 		}
 	})
 }
